@@ -385,6 +385,7 @@ def make_views(case):
             vB["ikeys"] = xf["ikeys"]
     elif fam == "S":
         vB["spread"] = True
+        vB["sopt"] = xf.get("sopt")
     else:
         raise ValueError(fam)
     return specA, vA, specB, vB, info
@@ -747,13 +748,15 @@ def check_case(case, ctx):
             classes.append("N:order_of_solutions_changes")
     if fam == "S" and any(len(g) > 1 for g in G.spread_groups(m, specB)):
         classes.append("S:several_rows_in_one_block")
+    if fam == "S" and "\n -water " in tB:
+        classes.append("S:block_level_water")
     if not differ:
         classes.append("identical_texts")
     return {"nontrivial": bool(nt), "classes": classes, "worst": [worst, worst_expr]}
 
 
 # ------------------------------------------------------------------------------------------ driver
-SHARE = {"U": 0.2, "U1": 0.1, "W": 0.2, "N": 0.1, "P": 0.11, "R": 0.06, "M": 0.17, "S": 0.06}
+SHARE = {"U": 0.18, "U1": 0.1, "W": 0.2, "N": 0.1, "P": 0.11, "R": 0.06, "M": 0.17, "S": 0.08}
 
 
 def run(ctx):
